@@ -1,0 +1,140 @@
+//go:build verif
+
+package regexp2
+
+import (
+	"math"
+	"sync/atomic"
+	"time"
+)
+
+// This file exists only in builds with the "verif" tag. It exposes what the
+// runtime monitors under /verif need and that the public API cannot give:
+// a scan of the compiled program with every accelerator disabled, a single
+// position attempt, and observation/perturbation points.
+
+// Perturbation / observation point identifiers passed to the point hook.
+const (
+	verifPtGetRunner = iota
+	verifPtPutRunner
+	verifPtQuickCode
+	verifPtReplacerMiss
+	verifPtPoolGet
+	verifPtPoolPut
+	verifPtMakeDeadline
+	verifPtClockWake
+	verifPtStopClock
+	verifPtCount
+)
+
+// Exported names of the point identifiers, for the monitors.
+const (
+	VerifPtGetRunner    = verifPtGetRunner
+	VerifPtPutRunner    = verifPtPutRunner
+	VerifPtQuickCode    = verifPtQuickCode
+	VerifPtReplacerMiss = verifPtReplacerMiss
+	VerifPtPoolGet      = verifPtPoolGet
+	VerifPtPoolPut      = verifPtPoolPut
+	VerifPtMakeDeadline = verifPtMakeDeadline
+	VerifPtClockWake    = verifPtClockWake
+	VerifPtStopClock    = verifPtStopClock
+	VerifPtCount        = verifPtCount
+)
+
+var (
+	verifPointHook atomic.Pointer[func(id int)]
+	verifTrackHook atomic.Pointer[func(re *Regexp, n int)]
+)
+
+// VerifSetPointHook installs (or with nil removes) the function called at every
+// verifPoint. The points sit between critical sections, never inside a held lock.
+func VerifSetPointHook(f func(id int)) {
+	if f == nil {
+		verifPointHook.Store(nil)
+		return
+	}
+	verifPointHook.Store(&f)
+}
+
+// VerifSetTrackAllocHook installs the function called whenever a backtracking
+// stack of n slots is allocated for a runner of re.
+func VerifSetTrackAllocHook(f func(re *Regexp, n int)) {
+	if f == nil {
+		verifTrackHook.Store(nil)
+		return
+	}
+	verifTrackHook.Store(&f)
+}
+
+func verifPoint(id int) {
+	if h := verifPointHook.Load(); h != nil {
+		(*h)(id)
+	}
+}
+
+func verifTrackAlloc(r *Runner, n int) {
+	if h := verifTrackHook.Load(); h != nil {
+		(*h)(r.re, n)
+	}
+}
+
+// VerifClockSnapshot reads the timeout clock's state under its own lock.
+func VerifClockSnapshot() (current, clockEnd int64, running bool, period time.Duration) {
+	fast.mu.Lock()
+	defer fast.mu.Unlock()
+	return int64(fast.current.read()), int64(fast.clockEnd.read()), fast.running, clockPeriod
+}
+
+// VerifNaiveFind attempts the compiled program of re at every position in scan
+// order (ascending from startAt, or descending for RightToLeft patterns) with no
+// candidate finder, no prefix filter, no minimum-length cut-off and no
+// bump-along carry-over between attempts. origin is the position \G refers to.
+func (re *Regexp) VerifNaiveFind(input []rune, startAt, origin int) (*Match, error) {
+	return re.verifScan(input, startAt, origin, false)
+}
+
+// VerifAttemptAt makes a single attempt of the compiled program at pos.
+func (re *Regexp) VerifAttemptAt(input []rune, pos, origin int) (*Match, error) {
+	return re.verifScan(input, pos, origin, true)
+}
+
+func (re *Regexp) verifScan(input []rune, startAt, origin int, single bool) (*Match, error) {
+	r := re.getRunner()
+	defer re.putRunner(r)
+
+	r.timeout = re.MatchTimeout
+	r.ignoreTimeout = (time.Duration(math.MaxInt64) == re.MatchTimeout)
+	r.debug = false
+	r.Runtextstart = origin
+	r.Runtext = input
+	r.Runtextend = len(input)
+	r.Runtextpos = startAt
+
+	bump, stop := 1, len(input)
+	if re.RightToLeft() {
+		bump, stop = -1, 0
+	}
+	execute := re.execute
+	if execute == nil {
+		execute = executeDefault
+	}
+
+	r.initMatch(newMatchText(input))
+	r.startTimeoutWatch()
+	for pos := startAt; ; pos += bump {
+		r.Runtextpos = pos
+		if err := execute(r); err != nil {
+			return nil, err
+		}
+		if r.runmatch.matchcount[0] > 0 {
+			return r.tidyMatch(false), nil
+		}
+		r.Runtrackpos = len(r.runtrack)
+		r.Runstackpos = len(r.runstack)
+		r.runcrawlpos = len(r.runcrawl)
+		if pos == stop || single {
+			r.tidyMatch(true)
+			return nil, nil
+		}
+	}
+}
